@@ -312,6 +312,14 @@ pub fn cfgs(tier: &str) -> Vec<(DnsCfg, Bounds)> {
         false,
         1,
     );
+    add(
+        "non-ASCII names: a name with a two-byte character, and the name its UTF-8 bytes spell in Latin-1",
+        vec![("b\u{fc}cher.example".into(), [10, 3, 0, 1]), ("b\u{c3}\u{bc}cher.example".into(), [10, 3, 0, 2])],
+        vec![vec![0, 0, 1, 1, 0], vec![1, 0]],
+        false,
+        false,
+        1,
+    );
     add("25-byte name (query longer than 80 bytes)", vec![(n25.clone(), [7, 7, 7, 7])], vec![vec![0, 0]], false, false, 1);
     if !q {
         add(
